@@ -56,19 +56,48 @@ def inTotoRun (o : RecOpts) (name : Str) (materialList productList : List Str) (
 
 /-! ## Two-phase recording: the stop phase as a pure function … -/
 
+/-- The fields of a link besides its artifacts that `in_toto_record_stop` lets the caller set
+(library-only arguments): the command, the by-products, the environment (an abstract rendering of the
+dictionary; `none` = empty). -/
+structure LinkExtras where
+  command : List Str
+  byproducts : Option Byproducts
+  environment : Option Str
+  deriving Repr, DecidableEq
+
+def LinkExtras.empty : LinkExtras := { command := [], byproducts := none, environment := none }
+
+/-- `if command: link.command = command`, likewise `byproducts`, `environment`: an argument that is
+given (truthy) replaces what the preliminary record carries, otherwise that is kept. -/
+def LinkExtras.override (fromStart given : LinkExtras) : LinkExtras :=
+  { command := if given.command = [] then fromStart.command else given.command
+    byproducts := match given.byproducts with
+      | some b => some b
+      | none => fromStart.byproducts
+    environment := match given.environment with
+      | some e => some e
+      | none => fromStart.environment }
+
 /-- A preliminary record on disk: the materials captured at start, the key id it
-was signed with, and whether it is unaltered (signature still valid). -/
+was signed with, whether it is unaltered (signature still valid), and the other
+fields as recorded at start. -/
 structure Prelim where
   materials : Dict Str RecVal
   signer : Str
   intact : Bool
+  extras : LinkExtras := LinkExtras.empty
   deriving Repr, DecidableEq
 
 structure FinalLink where
   materials : Dict Str RecVal
   products : Dict Str RecVal
   signer : Str
+  extras : LinkExtras := LinkExtras.empty
   deriving Repr, DecidableEq
+
+/-- The link the stop phase builds from the preliminary record. -/
+def finalOf (p : Prelim) (products : Dict Str RecVal) (key : Str) (given : LinkExtras) : FinalLink :=
+  { materials := p.materials, products := products, signer := key, extras := p.extras.override given }
 
 /-- A file: absent, completely written, or partially written (a crash inside `write`). -/
 inductive FState (α : Type) where
@@ -83,14 +112,16 @@ structure WDir where
   final : FState FinalLink
   deriving Repr, DecidableEq
 
-/-- `in_toto_record_stop` with key `key`, `products` being the recording at stop. -/
-def recordStop (key : Str) (products : Dict Str RecVal) (d : WDir) : Except Err WDir :=
+/-- `in_toto_record_stop` with key `key`, `products` being the recording at stop, `given` the
+optional command / by-products / environment arguments. -/
+def recordStop (key : Str) (products : Dict Str RecVal) (d : WDir) (given : LinkExtras := LinkExtras.empty) :
+    Except Err WDir :=
   match d.prelim with
   | .absent => .error .os                    -- FileNotFoundError (LinkNotFoundError with --gpg)
   | .partialWrite => .error .other           -- not loadable
   | .complete p =>
     if p.signer = key ∧ p.intact then
-      .ok { prelim := .absent, final := .complete { materials := p.materials, products, signer := key } }
+      .ok { prelim := .absent, final := .complete (finalOf p products key given) }
     else .error .signature
 
 /-! ## … and as the sequence of file-system operations it performs -/
